@@ -68,6 +68,9 @@ def build(case):
     mods = {}
     for i in range(n):
         mods[f'M{i}'] = {'area': masses[i] * scale}
+        if case['trials'] == 0:
+            # 'use initial coordinates' mode: no random start, every module has a centre
+            mods[f'M{i}']['center'] = [W * (0.2 + 0.6 * ((i * 2) % n) / max(1, n - 1)), H * (0.25 + 0.5 * ((i * 3) % n) / max(1, n - 1))]
     extra = case['extra']
     names = [f'M{i}' for i in range(n)]
     if extra == 'fixed':
@@ -253,6 +256,12 @@ def run_shard(shard, tier, res):
                 case['scale'] = cfg['scale']
             check_case(case, res)
             last = case
+    if shard['part'] == 0:
+        # nfloorplans = 0 ('-i': start from the given centres): deterministic, no draws
+        for topo in TOPOLOGIES:
+            for extra in ('none', 'fixed', 'hard', 'pins'):
+                for die in ([6, 4], [10, 3]):
+                    check_case(dict(topo=topo, masses='unequal', extra=extra, die=die, n=5, trials=0, answers=[0.5]), res)
     if last:
         res.samples.append(last)
 
